@@ -161,6 +161,8 @@ type provEnv struct {
 	encl map[ast.Node][]ast.Node
 	// sym: variables a rule wants kept symbolic (named) instead of traced to their definitions
 	sym map[types.Object]string
+	// noAssertFacts: governing conditions are control flow only (passed assertions are not listed)
+	noAssertFacts bool
 }
 
 func newProvEnv(pk *packages.Package, fd *ast.FuncDecl) *provEnv {
@@ -767,6 +769,7 @@ func (pe *provEnv) commandKinds(e ast.Expr) ([]string, bool) {
 				}
 			}
 			if len(ks) > 0 {
+				sort.Strings(ks) // a union: the textual order of the assignments is free
 				return strings.Join(ks, "|")
 			}
 			return "?"
@@ -1523,7 +1526,7 @@ func (pe *provEnv) earlyExitGuards(list []ast.Stmt, at ast.Node) []string {
 		// an assertion that was passed is a fact for what follows (a failed one does not return)
 		if es, ok := list[i].(*ast.ExprStmt); ok {
 			if call, ok := es.X.(*ast.CallExpr); ok && len(call.Args) >= 1 {
-				if fn, ok := calleeOf(pe.pk.TypesInfo, call).(*types.Func); ok && fn.Pkg() != nil && fn.Pkg().Path() == pkgUtil && fn.Name() == "Assert" {
+				if fn, ok := calleeOf(pe.pk.TypesInfo, call).(*types.Func); ok && fn.Pkg() != nil && fn.Pkg().Path() == pkgUtil && fn.Name() == "Assert" && !pe.noAssertFacts {
 					out = append(out, pe.condAtoms(call.Args[0], false)...)
 				}
 			}
